@@ -9,6 +9,8 @@ from tools_r2_quick import one
 
 def main():
     dirs = sorted(glob.glob('/verif/seeded/*/'))
+    if sys.argv[1:]:          # only the named seeds
+        dirs = [d for d in dirs if os.path.basename(d.rstrip('/')) in sys.argv[1:]]
     with ProcessPoolExecutor(max_workers=16) as ex:
         for (d, det), sd in zip(ex.map(one, [x + 'patch.diff' for x in dirs]), dirs):
             mp = sd + 'meta.json'
